@@ -21,7 +21,7 @@ edzed = seams.install()
 
 PROP = 'C08'
 LEVEL = 'fault_enumeration'
-RUNS = {'quick': 12000, 'thorough': 600000}
+RUNS = {'quick': 60000, 'thorough': 600000}
 CHUNK = 200
 RULE = ("one run = circuit of 2-8 blocks (lifecycle probes: sync, init_from_value, async "
         "init/stop, main task, persistent, CBlock; library: astable Timer, OutputAsync in all "
